@@ -240,7 +240,132 @@ fn all_writers_reopen_case(ctx: &mut CaseCtx) -> CaseResult {
     res
 }
 
+// ------------------------------------------------------------------------------------------
+// reopen_output() (file in place) from one thread while other threads log and rotate: every
+// record exactly once, per-thread order kept in the stream oldest file -> current file
+
+fn concurrent_reopen_case(ctx: &mut CaseCtx) -> CaseResult {
+    let rng = &mut ctx.rng;
+    let naming = flw::gen_naming(rng, false);
+    let wmode = *rng.pick(&[WMode::Direct, WMode::BufDont(64), WMode::BufDont(8192)]);
+    let nthreads = rng.range(2, 4) as usize;
+    let per_thread = rng.range(150, if ctx.thorough { 1200 } else { 400 }) as u64;
+    let cfg = FlwCfg {
+        names: family::NameCfg {
+            dir: ctx.dir.join("logs"),
+            basename: "conc".into(),
+            discr: None,
+            start_ts: None,
+            suffix: Some("log".into()),
+            naming,
+        },
+        use_ts: false,
+        crit: Some(Crit::Size(*rng.pick(&[100u64, 400, 2000]))),
+        clean: Clean::Never,
+        clean_bg: false,
+        wmode,
+        crlf: false,
+        append: false,
+        symlink: None,
+        use_utc: false,
+        max_level: log::LevelFilter::Trace,
+        fmt: FmtK::Raw,
+        l2: rng.chance(1, 2),
+    };
+    let mut res = CaseResult::new(format!(
+        "concurrent-reopen|{}|{}|{}|t{nthreads}",
+        if cfg.l2 { "L2" } else { "L1" },
+        cfg.names.naming.label(),
+        wmode.label()
+    ));
+    crate::ctl::install(false);
+    crate::ctl::clock_unset();
+    let driver = match Driver::build(&cfg) {
+        Ok(d) => std::sync::Arc::new(d),
+        Err(e) => {
+            res.violate("build-failed", "C18/build-failed", e);
+            crate::ctl::uninstall();
+            return res;
+        }
+    };
+    let run = ctx.case;
+    let stop = std::sync::Arc::new(std::sync::atomic::AtomicBool::new(false));
+    let mut joins = Vec::new();
+    for t in 0..nthreads {
+        let d = std::sync::Arc::clone(&driver);
+        let mut trng = rng.fork();
+        joins.push(std::thread::spawn(move || {
+            for s in 0..per_thread {
+                d.write(log::Level::Info, &flw::msg_id(run, t as u64, s, trng.usize(40)));
+            }
+        }));
+    }
+    let reopener = {
+        let d = std::sync::Arc::clone(&driver);
+        let stop = std::sync::Arc::clone(&stop);
+        std::thread::spawn(move || {
+            let mut n = 0u64;
+            let mut errs = Vec::new();
+            while !stop.load(std::sync::atomic::Ordering::Relaxed) {
+                if let Err(e) = d.reopen() {
+                    errs.push(e);
+                }
+                n += 1;
+                if n % 8 == 0 {
+                    std::thread::yield_now();
+                }
+            }
+            (n, errs)
+        })
+    };
+    for j in joins {
+        let _ = j.join();
+    }
+    stop.store(true, std::sync::atomic::Ordering::Relaxed);
+    let (reopens, errs) = reopener.join().unwrap_or((0, vec!["reopen thread panicked".into()]));
+    match std::sync::Arc::try_unwrap(driver) {
+        Ok(mut d) => d.shutdown(),
+        Err(_) => res.inconclusive("driver still shared"),
+    }
+    crate::ctl::uninstall();
+    res.absorb_panics("C18", "reopen_output concurrent with logging and rotation");
+    res.count("concurrent_reopen_calls", reopens);
+    let facts = format!("{}/{}", wmode.label(), cfg.names.naming.label());
+    if let Some(e) = errs.first() {
+        res.violate(
+            "op-error",
+            format!("C18/reopen-error/concurrent/{facts}"),
+            format!("reopen_output with the file in place returned {e} ({} of {reopens} calls)", errs.len()),
+        );
+    }
+    if res.verdict == Verdict::Held {
+        match family::observe(&cfg.names).map(|o| (o.family.len(), o.stream())) {
+            Ok((nfiles, Ok(stream))) => {
+                res.count("files_compared", nfiles as u64);
+                match crate::p_c03::check_stream(&stream, run, &vec![per_thread; nthreads], b"\n") {
+                    Ok(rep) => res.count("lines_checked", rep.lines),
+                    Err((kind, detail)) => res.violate(
+                        "concurrent-reopen",
+                        format!("C18/concurrent-reopen/{kind}/{facts}"),
+                        format!("{nthreads} threads logging through {nfiles} files while another thread called reopen_output() {reopens} times: {detail}"),
+                    ),
+                }
+            }
+            Ok((_, Err(e))) => res.violate("unreadable", format!("C18/unreadable/{facts}"), e),
+            Err(e) => res.inconclusive(e.to_string()),
+        }
+    }
+    res.nontrivial = reopens > 0;
+    if ctx.case < 40 || res.verdict != Verdict::Held {
+        res.sample = Some(json!({"config": cfg.to_json(), "threads": nthreads, "records_per_thread": per_thread, "reopen_calls": reopens}));
+    }
+    res
+}
+
 pub fn run_case(ctx: &mut CaseCtx) -> CaseResult {
+    if ctx.case % 16 == 11 {
+        return concurrent_reopen_case(ctx);
+    }
     if ctx.case % 8 == 5 {
         return all_writers_reopen_case(ctx);
     }
